@@ -31,7 +31,7 @@ func parseConfigFromCaddyfile(d *caddyfile.Dispenser) (*CertRevocationValidatorC
 	for d.Next() {
 		for nesting := d.Nesting(); d.NextBlock(nesting); {
 			key := d.Val()
-			validatorConfig, err, done := parseConfigEntryFromCaddyfile(d, key, certRevocationValidatorConfig)
+			validatorConfig, err, done := parseConfigEntryFromCaddyfile(d, key, &certRevocationValidatorConfig)
 			if done {
 				return validatorConfig, err
 			}
@@ -40,7 +40,7 @@ func parseConfigFromCaddyfile(d *caddyfile.Dispenser) (*CertRevocationValidatorC
 	return &certRevocationValidatorConfig, nil
 }
 
-func parseConfigEntryFromCaddyfile(d *caddyfile.Dispenser, key string, certRevocationValidatorConfig CertRevocationValidatorConfig) (*CertRevocationValidatorConfig, error, bool) {
+func parseConfigEntryFromCaddyfile(d *caddyfile.Dispenser, key string, certRevocationValidatorConfig *CertRevocationValidatorConfig) (*CertRevocationValidatorConfig, error, bool) {
 	switch key {
 	case "mode":
 		if !d.NextArg() {
@@ -94,7 +94,7 @@ func parseCaddyfileOCSPConfig(d *caddyfile.Dispenser) (*config.OCSPConfig, error
 func parseCaddyfileCRLConfig(d *caddyfile.Dispenser) (*config.CRLConfig, error) {
 	crlConfig := config.CRLConfig{}
 	for nesting := d.Nesting(); d.NextBlock(nesting); {
-		c, err, done := parseCaddyFileCrlConfigEntry(d, crlConfig)
+		c, err, done := parseCaddyFileCrlConfigEntry(d, &crlConfig)
 		if done {
 			return c, err
 		}
@@ -102,7 +102,7 @@ func parseCaddyfileCRLConfig(d *caddyfile.Dispenser) (*config.CRLConfig, error) 
 	return &crlConfig, nil
 }
 
-func parseCaddyFileCrlConfigEntry(d *caddyfile.Dispenser, crlConfig config.CRLConfig) (*config.CRLConfig, error, bool) {
+func parseCaddyFileCrlConfigEntry(d *caddyfile.Dispenser, crlConfig *config.CRLConfig) (*config.CRLConfig, error, bool) {
 	switch d.Val() {
 	case "work_dir":
 		if !d.NextArg() {
